@@ -154,7 +154,9 @@ class ModbusSocketFramer(ModbusFramer):
                     else:
                         _logger.debug("Not a valid unit id - {}, "
                                       "ignoring!!".format(self._header['uid']))
-                        self.resetFrame()
+                        # skip only the frame addressed to another unit,
+                        # not the frames that follow it in the buffer
+                        self.advanceFrame()
                 elif self._header['len'] < 2:
                     # checkFrame skipped a header with an invalid length,
                     # carry on with whatever follows it
